@@ -229,6 +229,32 @@ def context_bombs():
                         sei = bytes([0x4e, 0x01, 1, plen]) + bytes([fill]) * plen + b"\x80"
                         out.append(("H6/hevc/pic-timing-after-hrd-cpb%d-subpic%d-nal%d-vcl%d/len%d-%02x" % (cpb, subpic, nal, vcl, plen, fill), "ctx-hevc",
                                     lp(sps, hevc_pps, sei, hevc_slice)))
+    # pic_timing payloads parsed against an SPS whose HRD switches the sub-picture fields on: a huge Exp-Golomb code at every bit
+    # position of a short payload (num_decoding_units_minus1, the per-unit increments ... are ue(v) fields whose position
+    # depends on the HRD lengths in force)
+    bombs = [("ue-2^32-1", [0] * 32 + [1] + [0] * 32), ("ue-2^32", [0] * 32 + [1] + [0] * 31 + [1]), ("ue-2^16", [0] * 16 + [1] + [0] * 15 + [1]),
+             ("ue-2^63-1", [0] * 63 + [1] + [0] * 63)]
+    for (nal, vcl) in ((1, 0), (1, 1)):
+        sps = hevc_sps(0, 1, 1, nal, vcl)
+        for fill in (0x00, 0x5a, 0xff):
+            base = []
+            for _ in range(6):
+                base += [(fill >> (7 - i)) & 1 for i in range(8)]
+            for pos in range(0, 41):
+                for bname, bomb in bombs:
+                    bits = base[:pos] + bomb + base[pos:pos + 16]
+                    while len(bits) % 8:
+                        bits.append(0)
+                    payload = bytes(int("".join(map(str, bits[i:i + 8])), 2) for i in range(0, len(bits), 8))
+                    esc, z = bytearray(), 0
+                    for c in bytes([1, len(payload)]) + payload + b"\x80":
+                        if z == 2 and c <= 3:
+                            esc.append(3)
+                            z = 0
+                        esc.append(c)
+                        z = z + 1 if c == 0 else 0
+                    out.append(("H6/hevc/pic-timing-bomb-nal%d-vcl%d/fill%02x-bit%d-%s" % (nal, vcl, fill, pos, bname), "ctx-hevc",
+                                lp(sps, hevc_pps, b"\x4e\x01" + bytes(esc), hevc_slice)))
     for maxsub in (1, 6):
         out.append(("H6/hevc/hrd-sublayers%d" % maxsub, "nal-hevc", hevc_sps(3, 1, 1, 1, 1, maxsub)))
         out.append(("H6/hevc/hrd-sublayers%d-lowdelay" % maxsub, "nal-hevc", hevc_sps(3, 0, 0, 1, 0, maxsub, fixed=0, lowdelay=1)))
